@@ -277,7 +277,9 @@ Qed.
 
 Definition name_ok (n : bytes) : Prop := Forall is_byte n /\ mk_filename n = Real n.
 
-Record wf_fp (fp : pfilepatch) : Prop := {
+(* everything but the kind; a reject file is written from a file patch whose kind was decided from all of its
+   hunks but carries only the failed ones *)
+Record wf_fp0 (fp : pfilepatch) : Prop := {
   wf_names : pf_old fp <> None \/ pf_new fp <> None;
   wf_old : forall n, pf_old fp = Some n -> name_ok n;
   wf_new : forall n, pf_new fp = Some n -> name_ok n;
@@ -286,13 +288,16 @@ Record wf_fp (fp : pfilepatch) : Prop := {
   wf_nperm : forall p, pf_nperm fp = Some p -> p < 262144;
   wf_hash : match pf_ohash fp, pf_nhash fp with
             | Some o, Some n => hexs o /\ hexs n | None, None => True | _, _ => False end;
-  wf_hunks : pf_hunks fp <> [] /\ Forall wf_phunk (pf_hunks fp) /\ Forall ctx_ok (pf_hunks fp);
-  wf_kind : pf_kind fp = recognize_kind (pf_hunks fp) }.
+  wf_hunks : pf_hunks fp <> [] /\ Forall wf_phunk (pf_hunks fp) /\ Forall ctx_ok (pf_hunks fp) }.
 
-Definition same_fp (a c : pfilepatch) : Prop :=
-  pf_kind a = pf_kind c /\ pf_old a = pf_old c /\ pf_new a = pf_new c /\ pf_rename a = pf_rename c /\
+Definition wf_fp (fp : pfilepatch) : Prop := wf_fp0 fp /\ pf_kind fp = recognize_kind (pf_hunks fp).
+
+Definition same_fp0 (a c : pfilepatch) : Prop :=
+  pf_old a = pf_old c /\ pf_new a = pf_new c /\ pf_rename a = pf_rename c /\
   pf_operm a = pf_operm c /\ pf_nperm a = pf_nperm c /\ pf_ohash a = pf_ohash c /\ pf_nhash a = pf_nhash c /\
   Forall2 same_hunk (pf_hunks a) (pf_hunks c).
+
+Definition same_fp (a c : pfilepatch) : Prop := pf_kind a = pf_kind c /\ same_fp0 a c.
 
 Lemma write_hunks_length : forall hs y, write_hunks hs = Ok y -> (length hs <= length y)%nat.
 Proof.
@@ -355,10 +360,10 @@ Definition md_after (fp : pfilepatch) (m0 : fp_metadata) : fp_metadata :=
   let m5 := set_old m4 (match pf_old fp with Some x => mk_filename x | None => DevNull end) in
   set_new m5 (match pf_new fp with Some x => mk_filename x | None => DevNull end).
 
-Lemma hdr_rest_runs fp o n tail m0 : wf_fp fp ->
+Lemma hdr_rest_runs fp o n tail m0 : wf_fp0 fp ->
   runs (hdr_rest fp o n ++ tail) m0 tail (md_after fp m0).
 Proof.
-  intros [Hnames Hold Hnew Hren Hop Hnp Hhash _ _]. unfold hdr_rest, md_after. cbv zeta.
+  intros [Hnames Hold Hnew Hren Hop Hnp Hhash _]. unfold hdr_rest, md_after. cbv zeta.
   set (m1 := if pf_rename fp then set_rto (set_rfrom m0) else m0).
   set (m2 := match pf_operm fp with Some p => set_operm m1 p | None => m1 end).
   set (m3 := match pf_nperm fp with Some p => set_nperm m2 p | None => m2 end).
@@ -422,16 +427,16 @@ Proof.
 Qed.
 
 Lemma build_written fp m6 hs' :
-  wf_fp fp ->
+  wf_fp0 fp ->
   md_old m6 = Some (match pf_old fp with Some x => mk_filename x | None => DevNull end) ->
   md_new m6 = Some (match pf_new fp with Some x => mk_filename x | None => DevNull end) ->
   md_rename_from m6 && md_rename_to m6 = pf_rename fp ->
   md_operm m6 = pf_operm fp -> md_nperm m6 = pf_nperm fp ->
   md_ohash m6 = pf_ohash fp -> md_nhash m6 = pf_nhash fp ->
   Forall2 same_hunk (pf_hunks fp) hs' -> Forall ctx_ok hs' ->
-  exists fp', build_filepatch m6 hs' = Some fp' /\ same_fp fp fp'.
+  exists fp', build_filepatch m6 hs' = Some fp' /\ same_fp0 fp fp' /\ pf_kind fp' = recognize_kind hs' /\ pf_hunks fp' = hs'.
 Proof.
-  intros [Hnames Hold Hnew Hren Hop Hnp Hhash (Hne & Hwf & Hctx) Hkind] Hmo Hmn Hmr Hmop Hmnp Hmoh Hmnh Hsame Hctx'.
+  intros [Hnames Hold Hnew Hren Hop Hnp Hhash (Hne & Hwf & Hctx)] Hmo Hmn Hmr Hmop Hmnp Hmoh Hmnh Hsame Hctx'.
   assert (Hro : real_name (Some (match pf_old fp with Some x => mk_filename x | None => DevNull end)) = pf_old fp).
   { destruct (pf_old fp) as [x|] eqn:E1; [|reflexivity]. cbn [real_name]. rewrite (proj2 (Hold _ eq_refl)). reflexivity. }
   assert (Hrn : real_name (Some (match pf_new fp with Some x => mk_filename x | None => DevNull end)) = pf_new fp).
@@ -445,16 +450,17 @@ Proof.
       reflexivity.
     - destruct (pf_old fp); destruct (pf_new fp); try reflexivity. destruct Hnames; contradiction. }
   rewrite Hok. eexists. split; [reflexivity|].
-  unfold same_fp. cbn [pf_kind pf_old pf_new pf_rename pf_operm pf_nperm pf_ohash pf_nhash pf_hunks].
-  repeat split; try assumption. rewrite Hkind. apply kind_same; assumption.
+  unfold same_fp0. cbn [pf_kind pf_old pf_new pf_rename pf_operm pf_nperm pf_ohash pf_nhash pf_hunks].
+  repeat split; try assumption; reflexivity.
 Qed.
 
-Theorem write_parse_filepatch (fp : pfilepatch) (out rest : bytes) :
-  wf_fp fp -> rest_ok rest -> write_filepatch fp = Ok out ->
-  exists fp', parse_filepatch (out ++ rest) false = Ok (POk rest ([], fp')) /\ same_fp fp fp'.
+Theorem write_parse_filepatch0 (fp : pfilepatch) (out rest : bytes) :
+  wf_fp0 fp -> rest_ok rest -> write_filepatch fp = Ok out ->
+  exists fp', parse_filepatch (out ++ rest) false = Ok (POk rest ([], fp')) /\ same_fp0 fp fp' /\
+              pf_kind fp' = recognize_kind (pf_hunks fp') /\ Forall ctx_ok (pf_hunks fp').
 Proof.
   intros Hwffp [Hso Hnm] Hw. pose proof Hwffp as Hwffp'.
-  destruct Hwffp' as [Hnames Hold Hnew Hren Hop Hnp Hhash (Hne & Hwf & Hctx) Hkind].
+  destruct Hwffp' as [Hnames Hold Hnew Hren Hop Hnp Hhash (Hne & Hwf & Hctx)].
   destruct (write_filepatch_inv _ _ Hw) as (hd & hsout & Ehd & Eh & ->). clear Hw.
   destruct (or_else (pf_old fp) (pf_new fp)) as [o|] eqn:Eo;
     [|destruct (pf_old fp); destruct (pf_new fp); cbn in Eo; try discriminate; destruct Hnames; contradiction].
@@ -511,9 +517,21 @@ Proof.
               ltac:(unfold tail; rewrite app_length; lia)) as (hs' & Ehs' & Hsame).
   fold tail in Ehs'. rewrite Ehs'. cbn [bind app].
   pose proof (parse_hunks_ctx _ _ _ _ _ Ehs' ltac:(constructor)) as Hctx'. cbn [app] in Hctx'.
-  destruct (build_written fp m6 hs' Hwffp Hmo Hmn Hmr Hmop Hmnp Hmoh Hmnh Hsame Hctx') as (fp' & Eb & Hs).
-  rewrite Eb. exists fp'. split; [reflexivity|exact Hs].
+  destruct (build_written fp m6 hs' Hwffp Hmo Hmn Hmr Hmop Hmnp Hmoh Hmnh Hsame Hctx') as (fp' & Eb & Hs & Hkd & Hh).
+  rewrite Eb. exists fp'. split; [reflexivity|]. split; [exact Hs|]. rewrite Hh. split; assumption.
 Qed.
+
+Theorem write_parse_filepatch (fp : pfilepatch) (out rest : bytes) :
+  wf_fp fp -> rest_ok rest -> write_filepatch fp = Ok out ->
+  exists fp', parse_filepatch (out ++ rest) false = Ok (POk rest ([], fp')) /\ same_fp fp fp'.
+Proof.
+  intros [Hwf Hkind] Hrest Hw.
+  destruct (write_parse_filepatch0 fp out rest Hwf Hrest Hw) as (fp' & Hp & Hs & Hk & Hctx').
+  exists fp'. split; [exact Hp|]. split; [|exact Hs].
+  rewrite Hkind, Hk. apply kind_same; [exact (proj2 (proj2 (proj2 (proj2 (proj2 (proj2 (proj2 Hs))))))) | |exact Hctx'].
+  destruct Hwf as [_ _ _ _ _ _ _ (_ & _ & Hctx)]. exact Hctx.
+Qed.
+
 
 (* ---------- whole patches: a sequence of written file patches ---------- *)
 
@@ -544,7 +562,7 @@ Lemma same_fp_strip a c : same_fp a c ->
   unsafe_fp (strip_fp 0 c) = unsafe_fp (strip_fp 0 a) /\ same_fp (strip_fp 0 a) (strip_fp 0 c).
 Proof.
   intros (H1 & H2 & H3 & H4 & H5 & H6 & H7 & H8 & H9).
-  unfold empty_name_fp, unsafe_fp, strip_fp, same_fp.
+  unfold empty_name_fp, unsafe_fp, strip_fp, same_fp, same_fp0.
   cbn [pf_kind pf_old pf_new pf_rename pf_operm pf_nperm pf_ohash pf_nhash pf_hunks].
   rewrite H2, H3. repeat split; assumption.
 Qed.
